@@ -277,7 +277,8 @@ InitPool ==
     /\ mode = "pool"
     /\ meth = GETb /\ path = <<>> /\ depth = 0 /\ opts = <<>> /\ idx = 0 /\ out = "done" /\ hit = NoHit /\ taken = NoTaken
     /\ \E mp \in PoolMps : \E h \in {hA, hAnl, hB} : \E sc \in PoolStrs : \E pa \in PoolStrs :
-          (mp.grp = 0 \/ ~Unset(IF mp.sel = "path" THEN mp.path ELSE mp.script)) /\ mcase = [mp |-> mp, h |-> h, s |-> sc, p |-> pa]
+          LET selP == IF mp.sel = "path" THEN mp.path ELSE mp.script
+          IN mp.grp <= (IF Unset(selP) THEN 0 ELSE NGroups(selP.els)) /\ mcase = [mp |-> mp, h |-> h, s |-> sc, p |-> pa]
 
 PoolWhole ==
     mode = "pool" =>
